@@ -1085,7 +1085,7 @@ func (h *histRun) checkQuiescent(final bool) {
 					// event (the service has recreated the resource since); the
 					// revived subscription gets no events
 					sig = "diverged.populateDeleted"
-				} else if h.hasNote("sub.unsend", c.CID, rid) {
+				} else if h.hasNote("sub.unsend", c.CID, rid) || h.heldViaStale(c, rc, rid) {
 					sig = "diverged.afterUnsend"
 				}
 				h.viol(Viol{Prop: "C01", Conn: c.Idx, T: now, RID: rid, Sig: sig,
@@ -1501,6 +1501,16 @@ func (h *histRun) hadDelete(rid string) bool {
 
 // worldHasRef reports whether the service's current state of holder has a
 // non-soft reference to rid.
+// heldViaStale reports whether the client keeps rid only through resources that
+// were re-sent with a stale snapshot after Unsend (finding A): the gateway does
+// not hold rid for the client then, and sends no events for it.
+func (h *histRun) heldViaStale(c *WSClient, rc *RefClient, rid string) bool {
+	stale := func(r string) bool {
+		return r != rid && h.hasNote("sub.unsend", c.CID, r) && h.copyStale(rc, r)
+	}
+	return rc.Cache[rid] != nil && !rc.ReachableAvoiding(rid, stale)
+}
+
 // copyStale reports whether the client's copy of a (non-query) resource
 // differs from the service's current state: with the hook note sub.unsend for
 // it, it is the stale snapshot it was re-sent with (finding A).
